@@ -469,7 +469,7 @@ func genCoreCase(rng *Rng, maxOps int, variant string) (*CoreCase, error) {
 	if variant == "reserve" {
 		resDelay = true
 	}
-	w := CoreWorld{Configs: []string{coreConfigYAML(tree, preempt, policy)}, ResDelayOn: resDelay, PredDeny: []int{0, 0, 10, 30}[rng.Intn(4)], Seed: rng.Next()}
+	w := CoreWorld{Configs: []string{coreConfigYAML(tree, preempt, policy)}, ResDelayOn: resDelay, ResWaitOn: resDelay && rng.Chance(25), PredDeny: []int{0, 0, 10, 30}[rng.Intn(4)], Seed: rng.Next()}
 	nconf := rng.Intn(3)
 	cur := tree
 	for i := 0; i < nconf; i++ {
